@@ -149,6 +149,20 @@ class GenLeaf(Instrumented, Config):
     leafpath: Annotated[Path, pathgenerator("leaf.txt")]
 
 
+class GenInt(Instrumented, Config):
+    """A generated parameter that is neither a path nor Meta (filled when the configuration is sealed)."""
+
+    w: Param[int] = 0
+    g: Param[int] = field(default_factory=lambda: 7)
+
+
+class OwnerGI(Instrumented, Config):
+    """Holds a GenInt as the default value of a configuration-typed parameter (directed case of C02)."""
+
+    x: Param[int]
+    sub: Param[GenInt] = GenInt()
+
+
 class Gen(Instrumented, Config):
     """Generated paths in the three declaration styles, nestable everywhere."""
 
@@ -247,6 +261,11 @@ class TaskBase(Instrumented, Task):
             if log:
                 _append(log, f"end {me} fail")
             raise RuntimeError("task body failed on purpose")
+        if self.mode == "exit0":
+            # a body that ends the way a command-line entry point does: sys.exit(main())
+            if log:
+                _append(log, f"end {me} ok")
+            sys.exit(0)
         if self.mode == "exit3":
             if log:
                 _append(log, f"end {me} fail")
